@@ -64,7 +64,7 @@ func simConnHandlers(s *Service, conn Conn) {
 		vc.VerifSetHandlers(
 			func() { s.handleReconnect(nil) },
 			func() { s.handleDisconnect(nil) },
-			func() { s.handleClosed(nil) },
+			func() { s.connClosed(conn) },
 		)
 	}
 }
